@@ -4,16 +4,11 @@
  "standin": "B-drivers",
  "bound": "6 (quick) / 8 (thorough) small projects without externals x 3 (quick) / 16 (thorough) category subsets: Example.run_inline vs Example.run_pytest vs raw pytest subprocess (changed files as text) and run_inline's reported categories vs the headers of a `--inline-snapshot=<F>,report` session",
  "input": {
-  "project": "insertions in front of kept entries, whitespace-only edits",
-  "flags": [
-   "create",
-   "fix",
-   "trim",
-   "update"
-  ],
+  "project": "four categories",
+  "flags": [],
   "driver": "inline"
  },
- "detail": "C19: changed files of Example.run_inline differ from the raw pytest session: test_something.py: content differs\n--- run_inline test_something.py:\nfrom inline_snapshot import snapshot\n\n\ndef test_dict_front():\n    assert {\"a\": 1, \"b\": 2, \"c\": 29} == snapshot({\"a\": 1, \"b\": 2, \"c\": 29})\n\n\ndef test_list_front():\n    assert [29, 0, 1, 2] == snapshot([29, 0, 1, 2])\n\n\ndef test_call_front():\n    assert dict(a=1, b=29) == snapshot({\"a\": 1, \"b\": 29})\n\n\ndef test_trailing_blanks():\n    assert \"first\\nsecond\\n\" == snapshot(\"\"\"\\\nfirst\nsecond\n\"\"\")\n\n\ndef test_blank_inside_brackets():\n    assert [1, 29] == snapshot([1, 29 ])\n\n--- raw pytest test_something.py:\nfrom inline_snapshot import snapshot\n\n\ndef test_dict_front():\n    assert {\"a\": 1, \"b\": 2, \"c\": 29} == snapshot({\"b\": 2, \"c\": 29})\n\n\ndef test_list_front():\n    assert [29, 0, 1, 2] == snapshot([29, 0, 1, 2])\n\n\ndef test_call_front():\n    assert dict(a=1, b=29) == snapshot({\"a\": 1, \"b\": 29})\n\n\ndef test_trailing_blanks():\n    assert \"first\\nsecond\\n\" == snapshot(\"\"\"\\\nfirst\nsecond\n\"\"\")\n\n\ndef test_blank_inside_brackets():\n    assert [1, 29] == snapshot([1, 29 ])\n"
+ "detail": "C19: run_inline reported categories ['create', 'fix'] but the report session lists ['create', 'fix', 'trim', 'update']\n==================================== ERRORS ====================================\n_______________________ ERROR at teardown of test_create _______________________\nyour snapshot is missing one value.\n________________________ ERROR at teardown of test_fix _________________________\nsome snapshots in this test have incorrect values.\n=================================== FAILURES ===================================\n___________________________________ test_fix ___________________________________\n\n    def test_fix():\n>       assert 29 == snapshot(30)\nE       assert 29 == 30\nE        +  where 30 = snapshot(30)\n\ntest_something.py:9: AssertionError\n==================================== PASSES ====================================\n------------ generated xml file: /tmp/bsess-out-j5e_d_pn/junit.xml -------------\n=========================== short test summary info ============================\nPASSED test_something.py::test_create\nPASSED test_something.py::test_trim\nPASSED test_something.py::test_update\nPASSED test_something.py::test_ok\nERROR test_something.py::test_create - Failed: your snapshot is missing one v...\nERROR test_something.py::test_fix - Failed: some snapshots in this test have ...\nFAILED test_something.py::test_fix - assert 29 == 30\n==================== 1 failed, 4 passed, 2 errors in 2.74s ====================="
 }
 """
 
@@ -86,8 +81,8 @@ ROOT = tempfile.mkdtemp()
 PROJ = os.path.join(ROOT, "proj")
 os.mkdir(PROJ)
 try:
-    FILES = {'test_something.py': 'from inline_snapshot import snapshot\n\n\ndef test_dict_front():\n    assert {"a": 1, "b": 2, "c": 29} == snapshot({"b": 2})\n\n\ndef test_list_front():\n    assert [29, 0, 1, 2] == snapshot([1, 2])\n\n\ndef test_call_front():\n    assert dict(a=1, b=29) == snapshot(dict(b=29))\n\n\ndef test_trailing_blanks():\n    assert "first\\nsecond\\n" == snapshot("""\\\nfirst  \nsecond\n""")\n\n\ndef test_blank_inside_brackets():\n    assert [1, 29] == snapshot([1, 29 ])\n', 'pyproject.toml': '[tool.inline-snapshot]\n'}
-    FLAGS = ['--inline-snapshot=create,fix,trim,update']
+    FILES = {'test_something.py': 'from inline_snapshot import snapshot\n\n\ndef test_create():\n    assert 29 == snapshot()\n\n\ndef test_fix():\n    assert 29 == snapshot(30)\n\n\ndef test_trim():\n    assert 29 <= snapshot(31)\n\n\ndef test_update():\n    assert "hello" == snapshot(\'\'\'hello\'\'\')\n\n\ndef test_ok():\n    assert [1, 2] == snapshot([1, 2])\n', 'pyproject.toml': '[tool.inline-snapshot]\n'}
+    FLAGS = []
     write(PROJ, FILES)
     r = session(PROJ, FLAGS)
     raw = {k: v.decode() for k, v in r['after'].items() if FILES.get(k) != v.decode()}
@@ -107,7 +102,7 @@ try:
     assert cp.value == raw, 'run_pytest differs from raw session'
     assert ci.value == raw, 'run_inline differs from raw session'
     P2 = os.path.join(ROOT, 'p2'); os.mkdir(P2); write(P2, FILES)
-    rep = session(P2, ['--inline-snapshot=' + ','.join(['create', 'fix', 'trim', 'update', 'report'])])
+    rep = session(P2, ['--inline-snapshot=' + ','.join(['report'])])
     listed = sorted(c for c, h in {'create': 'Create snapshots', 'fix': 'Fix snapshots', 'trim': 'Trim snapshots', 'update': 'Update snapshots'}.items() if h in rep['out'])
     assert cc.value == listed, (cc.value, listed)
 finally:
